@@ -19,6 +19,7 @@
 //	  r<i>      P.Reinstate(child i)
 //	  a<i>      age the last fault of child i (in-package accessor; window certainly elapsed)
 //	  F<i><k>   the next k PreStart calls of child i fail (k one digit)
+//	  R<i>      the public PID.Restart(ctx) on child i, called from outside (only when the system still resolves the child by name)
 //
 // After every op the harness waits for quiescence by CONDITIONS (never by sleeping a fixed time):
 // child turn over -> supervision queue drained (a barrier actor goes through the same FIFO queue)
@@ -486,6 +487,12 @@ func handle(line string) string {
 			}
 		case 'a':
 			actor.VerifC07Age(c)
+		case 'R':
+			if got, err := sys.ActorOf(ctx, c.Name()); err != nil || got != c {
+				res = "err"
+			} else if err := c.Restart(ctx); err != nil {
+				res = "err"
+			}
 		case 'F':
 			if len(op) != 3 || op[2] < '0' || op[2] > '9' {
 				return "bad-case"
